@@ -20,6 +20,9 @@ ignored path is reported instead), (3) nested tree (ControlDirFormat.find_format
 into), (4) conflict helper file (member of the set built from associated_filenames() of the tree's conflicts). The
 ignore test is applied only to paths found by directory listing, never to the paths the user named explicitly
 ("even if it matches an ignore pattern"). AddAction.skip_file is a bzr-only extension point (noted, not required of git).
+Added while testing against seeded changes: Also: _gather_dirs_to_add drops a named directory only on a component-
+aware containment test (osutils.is_inside*); the git adder probes every non-root directory with
+ControlDirFormat.find_format before listing it.
 Does not decide: parent-directory versioning, nor that nothing else becomes versioned (tree values).
 """
 
